@@ -185,6 +185,7 @@ structure TW where
   wbuf        : List Nat := []
   wroteHeader : Bool := false
   timedOut    : Bool := false
+  flushed     : Bool := false   -- (fix C04-flush-after-timeout) the status line went out with a Flush
   deriving Repr, DecidableEq
 
 def TW.init : TW := {}
@@ -194,7 +195,7 @@ inductive Act where
   | setHeader (k v : Nat)       -- w.Header().Set(k, v)        (no lock: Header() hands out the map)
   | writeHeader (code : Nat)    -- w.WriteHeader(code)         (under tw.mu)
   | write (b : List Nat)        -- w.Write(b)                  (under tw.mu)
-  | flush                       -- w.(http.Flusher).Flush()    (NO lock, ignores timedOut)
+  | flush                       -- w.(http.Flusher).Flush()    (under tw.mu, nothing once timedOut; pinned code: no lock)
   | panic (v : Nat)             -- panic(v)
   deriving Repr, DecidableEq
 
@@ -232,15 +233,23 @@ def twStep (t : TW) : Act → TW × Res
 /-- the handler run to the end of a list of actions on its own (no timeout) -/
 def runTW (t : TW) (acts : List Act) : TW := acts.foldl (fun t a => (twStep t a).1) t
 
-/-- `case <-done:` of ServeHTTP: copy the buffered headers, status (only if ≠ 200) and body to the real writer. -/
+/-- `case <-done:` of ServeHTTP: copy the buffered headers, status (only if ≠ 200 and not already sent by a Flush)
+and body to the real writer. -/
 def doneBranch (w : Rec) (t : TW) : Rec :=
   let w1 : Rec := { w with hdr := hmerge w.hdr t.h }
-  let w2 := if t.code != 200 then w1.writeHeader t.code else w1
+  let w2 := if t.code != 200 && !t.flushed then w1.writeHeader t.code else w1
   w2.write t.wbuf
 
-/-- `Flush()` of timeoutWriter as it exists: copy headers, write the buffer straight to the real writer,
-reset the buffer, flush — without `mu`, without looking at `timedOut`, without the buffered status. -/
+/-- the body of `Flush()` (fixed code, run under `mu` when not `timedOut`): copy headers, send the buffered status with
+the first flush, write the buffer straight to the real writer, reset the buffer, flush. -/
 def flushNow (w : Rec) (t : TW) : Rec × TW :=
+  let w1 : Rec := { w with hdr := hmerge w.hdr t.h }
+  let w2 := if !t.flushed && t.code != 200 then w1.writeHeader t.code else w1
+  ((w2.write t.wbuf).flush, { t with wbuf := [], flushed := true })
+
+/-- `Flush()` as pinned (before fixes/C04-flush-after-timeout.patch): without `mu`, without looking at `timedOut`,
+without the buffered status. -/
+def flushNowPinned (w : Rec) (t : TW) : Rec × TW :=
   let w1 : Rec := { w with hdr := hmerge w.hdr t.h }
   ((w1.write t.wbuf).flush, { t with wbuf := [] })
 
@@ -302,8 +311,9 @@ def hstep (s : St) : Option St :=
     match s.script[s.hpc]? with
     | none => some { s with hst := .finished, done := true }
     | some .flush =>
-      let r := flushNow s.w s.tw
-      some { s with w := r.1, tw := r.2, hpc := s.hpc + 1, log := s.log ++ [.ok] }
+      if s.mu then none
+      else if s.tw.timedOut then some { s with hpc := s.hpc + 1, log := s.log ++ [.ok] }
+      else some { s with w := (flushNow s.w s.tw).1, tw := (flushNow s.w s.tw).2, hpc := s.hpc + 1, log := s.log ++ [.ok] }
     | some (.setHeader k v) =>
       some { s with tw := (twStep s.tw (.setHeader k v)).1, hpc := s.hpc + 1, log := s.log ++ [.ok] }
     | some (.panic v) =>
@@ -332,6 +342,21 @@ def step (reason : List Nat) (s : St) : Label → Option St
     | .t2 k => some { s with w := s.w.write reason, pc := .t3 k }
     | .t3 k => some { s with tw := { s.tw with timedOut := true }, mu := false, pc := .retTimeout k }
     | _ => none
+
+/-- the pinned code (before the fix): `Flush` needs no lock and ignores `timedOut`; everything else as `step` -/
+def stepPinned (reason : List Nat) (s : St) : Label → Option St
+  | .h =>
+    match s.hst, s.script[s.hpc]? with
+    | .running, some .flush =>
+      some { s with w := (flushNowPinned s.w s.tw).1, tw := (flushNowPinned s.w s.tw).2, hpc := s.hpc + 1, log := s.log ++ [.ok] }
+    | _, _ => hstep s
+  | l => step reason s l
+
+def runLabelsPinned (reason : List Nat) (s : St) : List Label → Option St
+  | [] => some s
+  | l :: ls => match stepPinned reason s l with
+    | some s' => runLabelsPinned reason s' ls
+    | none => none
 
 /-- run a schedule; `none` if some step is not enabled -/
 def runLabels (reason : List Nat) (s : St) : List Label → Option St
